@@ -1,6 +1,7 @@
 import VaxisModel.Model.DynList
 import VaxisModel.Model.DynGenBodies
 import VaxisModel.Props.C19Exec
+import VaxisModel.Lemmas.DynExecProgress
 
 /-! F119i (observation, recorded — not a violation of a clause of C19 for any FINITE item count):
 `Dynamic.Draw` stops its downward loop only when the accumulated height reaches the viewport height or the
@@ -91,5 +92,26 @@ theorem zero_heights_then_content (k h W H : Nat) (hH : 1 ≤ H) (h1 : H ≠ 655
   simp only [Nat.zero_add] at hd
   simp [draw, Facts.fixed, clampTop, clampLoop, prologue, init, scrollUp, gutter, reveal, h1, h2]
   exact hd
+
+/-- **The hang needs zero progress: an endless Builder whose widgets make progress is drawn in one bounded frame.**
+    ANY Builder that never returns nil (no item count at all) whose widgets all satisfy `height + gap ≥ 1` (heights
+    bounded by some `Mx`), any gap, with or without the cursor gutter, any viewport: `Draw` from the initial state, executed
+    from the regenerated body with `H + Mx + 3` units of loop fuel, RETURNS, with at most `max 1 H` children — the
+    downward loop stops as soon as the viewport is full.  Together with `endless_builder_never_returns`: `Draw` fails to
+    return only when the Builder is endless AND its widgets add no height. -/
+theorem endless_builder_with_progress_returns (b : Nat → Option Nat) (cfg : Cfg) (W H F Mx : Nat)
+    (hb : ∀ i, ∃ h, b i = some h ∧ h ≤ Mx ∧ 1 ≤ (h : Int) + cfg.gap)
+    (h1 : H < 65535) (h2 : W ≠ 65535) (hF : H + Mx + 3 ≤ F) :
+    ∃ st cs, runDraw genBodies b cfg init W H F = .ok (st, cs) ∧ cs.length ≤ max H 1 := by
+  rw [Props.C19Exec.gen_bodies_parsed]
+  exact Lemmas.DynExec.draw_progress b cfg W H F Mx hb h1 h2 hF
+
+/-- Non-vacuity: an endless list of one-row widgets, viewport 10 × 4: four children. -/
+example : (match runDraw genBodies (fun _ => some 1) ⟨0, false⟩ init 10 4 8 with
+     | .ok (_, cs) => cs.length == 4
+     | _ => false) = true := by decide +kernel
+
+example : ∀ i : Nat, ∃ h : Nat, (fun _ : Nat => some (1 : Nat)) i = some h ∧ h ≤ 1 ∧ 1 ≤ (h : Int) + (⟨0, false⟩ : Cfg).gap :=
+  fun _ => ⟨1, rfl, by omega, by decide⟩
 
 end VaxisModel.Witness.F119i
